@@ -290,7 +290,10 @@ def rule_templates(ctx):
         ctx.check('templates', 'template:%s' % var, t == TEMPLATES.get(var), (p, d[1]), '%s <- %s' % (var, t),
                   bad_detail='%s is reported for token sequence %s, reference template is %s' % (var, t, TEMPLATES.get(var)))
         if var == 'OpReturn':
-            ctx.check('templates', 'opreturn-payload=data-token', c == 'ScriptPattern::OpReturn{0: from_utf8_lossy(data(a1[1])?)}', (p, d[1]), c)
+            # the data token's bytes: through the data() accessor or by matching the element directly
+            dpath = set(b2.path for b2 in prog.find('StackElement::data'))
+            ci = canon(prog.inline_only(p.rvalue_expr(d[3]), dpath)) if dpath else c
+            ctx.check('templates', 'opreturn-payload=data-token', ci == 'ScriptPattern::OpReturn{0: from_utf8_lossy((a1[1] as Data).0)}', (p, d[1]), ci)
     ctx.check('templates', 'five-templates', set(seen) == set(TEMPLATES), p, 'templates for %s' % sorted(seen))
     # templates are pairwise non-overlapping (different length or a differing opcode position), so order is irrelevant
     ts = list(TEMPLATES.items())
